@@ -24,7 +24,7 @@ def main():
     only = args
     res_path = Path(os.environ.get('MUTANT_RESULTS', str(V / 'scratch' / 'RESULTS.par.json')))
     out = json.loads(res_path.read_text()) if res_path.exists() else {}
-    names = [d.name for d in sorted((V / 'seeded').glob('C*-[a-h]')) if not only or d.name in only or d.name.split('-')[0] in only]
+    names = [d.name for d in sorted((V / 'seeded').glob('C*-[a-z]')) if not only or d.name in only or d.name.split('-')[0] in only]
     trees = Queue()
     made = []
     for w in range(jobs):
